@@ -31,6 +31,7 @@ pub fn plan() -> Plan {
         quick_histories: 500,
         thorough_histories: 80000,
         s5: None,
+        enumerate_session_end: None,
     }
 }
 
